@@ -951,3 +951,111 @@ package objects
 //@   sweep
 //@   mode nopanic=off
 //@   ensures err == nil ==> q != nil && fresh(q)
+
+// ================================================================ C19: scheduling order
+
+// ---- nodes: the ordering key of a node in the sorted tree is (score, node id): a strict total order on registered nodes
+//@ spec nrLess(s1 real, i1 string, s2 real, i2 string) bool = s1 < s2 || (s1 == s2 && i1 < i2)
+
+//@ func (nr nodeRef) Less(than btree.Item) (r bool)
+//@   props C19
+//@   pure
+//@   mode nopanic=off
+//@   ensures[key] hastype(than, nodeRef) ==> r == nrLess(nr.nodeScore, nr.node.NodeID, unbox(than, nodeRef).nodeScore, unbox(than, nodeRef).node.NodeID)
+//@   ensures[foreign] !hastype(than, nodeRef) ==> !r
+
+//@ lemma nodeOrderIrreflexive(s real, i string)
+//@   props C19
+//@   concl !nrLess(s, i, s, i)
+//@ lemma nodeOrderAsymmetric(s1 real, i1 string, s2 real, i2 string)
+//@   props C19
+//@   hyp nrLess(s1, i1, s2, i2)
+//@   concl !nrLess(s2, i2, s1, i1)
+//@ lemma nodeOrderTransitive(s1 real, i1 string, s2 real, i2 string, s3 real, i3 string)
+//@   props C19
+//@   hyp nrLess(s1, i1, s2, i2) && nrLess(s2, i2, s3, i3)
+//@   concl nrLess(s1, i1, s3, i3)
+//@ lemma nodeOrderTotal(s1 real, i1 string, s2 real, i2 string)
+//@   props C19
+//@   hyp i1 != i2
+//@   concl nrLess(s1, i1, s2, i2) || nrLess(s2, i2, s1, i1)
+
+// ---- the node collection: the score cached for a node is the score it is keyed with in the tree, and it is the score
+// computed at the last update; what is deleted from the tree is the entry under the cached key
+//@ spec abstract curscore(nc *baseNodeCollection, n *Node) real
+//@ func (nc *baseNodeCollection) scoreNode(node *Node) (s float64)
+//@   props C19
+//@   trusted "node sorting policy plug-in (interface call): a pure function of the node's current utilisation"
+//@   pure
+//@   ensures s == curscore(nc, node)
+
+//@ func (nc *baseNodeCollection) SetNodeSortingPolicy(policy NodeSortingPolicy)
+//@   props C19
+//@   sweep
+//@   mode nopanic=off
+//@   at[cached] call btree.BTree.ReplaceOrInsert#1: assert nref.nodeScore == curscore(nc, nref.node) && hastype(arg1, nodeRef) && unbox(arg1, nodeRef).node == nref.node && unbox(arg1, nodeRef).nodeScore == nref.nodeScore
+
+//@ func (nc *baseNodeCollection) NodeUpdated(node *Node)
+//@   props C19
+//@   sweep
+//@   mode nopanic=off
+//@   at[deleteold] call btree.BTree.Delete#1: assert hastype(arg1, nodeRef) && unbox(arg1, nodeRef).node == nref.node && unbox(arg1, nodeRef).nodeScore == old(nc.nodes[node.NodeID].nodeScore) && nref == nc.nodes[node.NodeID]
+//@   at[cached] call btree.BTree.ReplaceOrInsert#1: assert nref.nodeScore == curscore(nc, node) && hastype(arg1, nodeRef) && unbox(arg1, nodeRef).node == nref.node && unbox(arg1, nodeRef).nodeScore == nref.nodeScore
+
+//@ func (nc *baseNodeCollection) AddNode(node *Node) (err error)
+//@   props C19
+//@   sweep
+//@   mode nopanic=off
+//@   at[cached] call btree.BTree.ReplaceOrInsert#1: assert hastype(arg1, nodeRef) && unbox(arg1, nodeRef).node == node && unbox(arg1, nodeRef).nodeScore == curscore(nc, node) && nc.nodes[node.NodeID] != nil && nc.nodes[node.NodeID].node == node && nc.nodes[node.NodeID].nodeScore == curscore(nc, node)
+
+//@ func (nc *baseNodeCollection) RemoveNode(nodeID string) (n *Node)
+//@   props C19
+//@   sweep
+//@   mode nopanic=off
+//@   at[deletekey] call btree.BTree.Delete#1: assert hastype(arg1, nodeRef) && unbox(arg1, nodeRef).node == nref.node && unbox(arg1, nodeRef).nodeScore == nref.nodeScore && nref == old(nc.nodes[nodeID])
+//@   ensures[unlisted] !(nodeID in nc.nodes) || old(nc.nodes[nodeID]) == nil
+
+// ---- queues by priority: the comparator is a function of the two queues' own priority key only: the current priority
+// adjusted by the queue's own policy and offset, saturating at the int32 limits (never wrapping)
+//@ spec prioKey(policy int, offset int, priority int) int = priority == -2147483648 ? priority : (policy == policies.FencePriorityPolicy ? offset : (offset + priority > 2147483647 ? 2147483647 : (offset + priority < -2147483648 ? -2147483648 : offset + priority)))
+//@ func priorityValueByPolicy(policy policies.PriorityPolicy, offset int32, priority int32) (v int32)
+//@   props C19
+//@   pure
+//@   ensures v == prioKey(policy, offset, priority)
+//@ spec qprio(q *Queue) int = prioKey(q.priorityPolicy, q.priorityOffset, q.currentPriority)
+
+//@ func sortQueuesByPriority$1(i, j int) (r bool)
+//@   props C19
+//@   mode nopanic=off
+//@   pure
+//@   ensures[key] r == (qprio(queues[i]) > qprio(queues[j]))
+
+// ---- fair queue sorting: the fair-max used for a queue must be that queue's own
+//@ spec abstract fairmaxof(q *Queue) *resources.Resource
+//@ func sortQueuesByFairnessAndPriority$1(i, j int) (r bool)
+//@   props C19
+//@   sweep
+//@   mode nopanic=off
+//@   at[ownfairmax] call resources.CompUsageRatioSeparately#1: assert arg2 == fairmaxof(queues[i]) && arg5 == fairmaxof(queues[j])
+//@ func sortQueuesByPriorityAndFairness$1(i, j int) (r bool)
+//@   props C19
+//@   sweep
+//@   mode nopanic=off
+//@   at[ownfairmax] call resources.CompUsageRatioSeparately#1: assert arg2 == fairmaxof(queues[i]) && arg5 == fairmaxof(queues[j])
+
+// ---- applications: the comparators are functions of the two applications' own keys only
+//@ func sortApplicationsByPriorityAndSubmissionTime$1(i, j int) (r bool)
+//@   props C19
+//@   sweep
+//@   mode nopanic=off
+//@   at[own] call time.Time.Before#1: assert leftPriority == sortedApps[i].askMaxPriority && rightPriority == sortedApps[j].askMaxPriority && leftPriority == rightPriority
+
+// ---- the pending-size tie-break of the fair queue comparators is the strict vector order (contract of
+// resources.StrictlyGreaterThan over Sub, proved under C18). sort.SliceStable yields a permutation-independent order
+// only for a strict weak order, i.e. incomparability must be transitive. Stated for two resource types (bounded:
+// two types are enough to refute it, the general statement is not proved).
+//@ spec vgt(x1 int, x2 int, y1 int, y2 int) bool = x1 - y1 >= 0 && x2 - y2 >= 0 && (x1 - y1 != 0 || x2 - y2 != 0)
+//@ lemma pendingTieBreakIncomparabilityTransitive(a1 int, a2 int, b1 int, b2 int, c1 int, c2 int)
+//@   props C19
+//@   hyp !vgt(a1, a2, b1, b2) && !vgt(b1, b2, a1, a2) && !vgt(b1, b2, c1, c2) && !vgt(c1, c2, b1, b2)
+//@   concl !vgt(a1, a2, c1, c2) && !vgt(c1, c2, a1, a2)
